@@ -11,7 +11,8 @@ from common import err_code
 CONFIG = {
     "cone": ["Base/ListUtil.v", "Base/QUtil.v", "Base/FirstArgmax.v", "Base/MixedRadix.v", "Model/Store.v", "Proofs/StoreProofs.v",
              "Model/Archive.v", "Proofs/ArchiveProofs.v", "Proofs/C01Proofs.v", "Proofs/C02Proofs.v", "Proofs/C07Proofs.v",
-             "Model/Sliding.v", "Proofs/SlidingProofs.v", "Properties/C15.v"],
+             "Model/Sliding.v", "Proofs/SlidingProofs.v", "Model/Grid.v", "Model/SlidingIndex.v", "Proofs/SlidingBridge.v",
+             "Properties/C15.v"],
     "trusted": ["Model/Sliding.v is a hand-written model of _sliding_boundaries_archive.py tied by the correspondence run (sampled): whole "
                 "histories through several remaps, compared after every operation on feedback, data() incl. measures, boundaries, bounds, "
                 "statistics and best elite",
@@ -51,14 +52,21 @@ def gen_spec(rng, tier):
             "remap_frequency": freq, "buffer_capacity": cap, "seed": rng.randrange(1 << 30)}
 
 
-def gen_ops(rng, spec, nops):
+def gen_ops(rng, spec, nops, force_sliver=False):
     nd = len(spec["dims"])
     centre = [rng.randrange(-16, 17) / 8.0 for _ in range(nd)]
     drift = [rng.choice([-0.25, 0.0, 0.125, 0.5]) for _ in range(nd)]
     pool, seen_obj, ops = [], [], []
     nid = [1]
+    # "sliver" histories (float64 only): few base points, every measure = base + k * 2^-21 (|k| <= 3, i.e. below the archive's
+    # epsilon 1e-6 but far above rounding), so that consecutive remaps move boundaries by less than epsilon and elites sit in
+    # the slivers between old and new boundaries
+    sliver = spec["dtype"] == "d" and (force_sliver or rng.random() < 0.25)
+    bases = [[rng.randrange(-16, 17) / 8.0 for _ in range(rng.choice([1, 2, 3]))] for _ in range(nd)]
 
     def measures():
+        if sliver:
+            return [rng.choice(bases[i]) + rng.randrange(-3, 4) * 2.0 ** -21 for i in range(nd)]
         if pool and rng.random() < 0.3:
             return list(rng.choice(pool))
         m = []
